@@ -340,13 +340,29 @@ CORPUS = [
 ]
 
 
+def cmd_sweep():
+    """the raw `cmd` platform command with every sequence opcode, in a channel track, inside a loop, in a
+    subroutine and in a macro track (a loop break / loop end without loop start was a top() on an empty
+    stack until repository fix 3e0ed67)"""
+    out = []
+    for op in list(range(0xe0, 0x100)) + [0x7f, 0x80, 0x81, 0x82, 0xdf]:
+        for arg in ("", " 0", " 2", " 300"):
+            c = "'cmd 0x%02x%s'" % (op, arg)
+            out.append(("A %s c" % c, "cmd-sweep"))
+            if arg == " 2":
+                out.append(("A [c %s d]2 e" % c, "cmd-sweep"))
+                out.append(("A c *20 d\n*20 %s e" % c, "cmd-sweep"))
+                out.append(("A P1 c\n*1 %s r" % c, "cmd-sweep"))
+    return out
+
+
 def corpus_cases(rng, tier):
     okw = wav_ok().hex()
-    for text, tag in CORPUS:
+    for text, tag in CORPUS + cmd_sweep():
         b = text.encode("latin-1")
         side = " a.wav=h:" + okw if "a.wav" in text else ""
         # the optimiser is quadratic or worse in the track length / count: long inputs go without -O
-        opts = ["m", "v", "l", "mO", "vO"] if len(b) < 3000 else ["m", "v", "l"]
+        opts = (["m", "l"] if tag == "cmd-sweep" else ["m", "v", "l", "mO", "vO"]) if len(b) < 3000 else ["m", "v", "l"]
         for o in opts:
             yield Case("total %s %s%s" % (o, hx(b), side), ("corpus", tag), "corpus")
         if tag in ("d12", "ordinary", "d17", "nul", "trivial"):
